@@ -16,7 +16,7 @@ REPO = os.environ.get("VERIF_REPO", "/repo")
 LEAN = os.path.join(ROOT, "lean")
 HARNESS = os.path.join(ROOT, "go", "harness")
 sys.path.insert(0, os.path.join(ROOT, "tools"))
-from props import PROPS  # noqa: E402
+from props import ALL as PROPS  # noqa: E402  (disabled properties can be run; only enabled ones are claimed in MANIFEST)
 
 ALLOWED_AXIOMS = {"propext", "Classical.choice", "Quot.sound"}
 FORBIDDEN = re.compile(r"\b(sorry|admit|native_decide|bv_decide|implemented_by)\b|^\s*axiom\s|\bunsafe\s|maxHeartbeats\s+0\b")
@@ -406,6 +406,11 @@ def main():
     evidence["coverage"] = cov
     with open(os.path.join(ROOT, "evidence", pid + ".json"), "w") as f:
         json.dump(evidence, f, indent=1)
+    if cfg.get("gen") and os.path.realpath(REPO) != os.path.realpath("/repo"):
+        # the run regenerated lean/Aqv/Gen/* from another tree: restore the files generated from /repo
+        env2 = dict(GOENV)
+        env2.pop("VERIF_REPO", None)
+        sh([sys.executable, os.path.join(ROOT, "tools", "gen.py")] + cfg["gen"], cwd=ROOT, env=env2, timeout=900)
     say(f"{pid}: {'OK' if exit_code == 0 else 'FAIL'} obligations {discharged}/{len(thms)}, cases {ncases} (agree {agree}), "
         f"known findings {len(known_hit)}, wall {time.time()-t_start:.1f}s")
     sys.exit(exit_code)
